@@ -193,6 +193,11 @@ func (c *tracingHTTP2Conn) handleFrame(frame http2.Frame, isRequest bool) {
 		})
 
 	case *http2.GoAwayFrame:
+		if isRequest {
+			// Sent by the client: its last stream ID refers to streams
+			// initiated by the server, not to the client's own calls.
+			return
+		}
 		c.setMaxStreamIDLocked(frame.LastStreamID, http2.ConnectionError(frame.ErrCode))
 	}
 }
